@@ -154,6 +154,8 @@ class CtlParser:
                         repeat = 0
                     self._multiline_comments[start] = (end, comment, repeat)
                     self._subctls.setdefault(start, None)
+                    if end:
+                        self._subctls.setdefault(end, None)
                 elif ctl == 'L':
                     count = lengths[0][0]
                     if count > 1:
